@@ -200,10 +200,18 @@ def judge(prop, rep, binary, scripts, work, replay, acc):
     acc["chunks"] += nchunks
     acc["rejected"] += len(bad)
     acc["confirmed"] += len(confirmed)
-    for r in runs:
+    for ri, r in enumerate(runs):
         acc["events"] += len(r)
         for e in r:
+            if e["a"] == "Query" and e.get("tokBad", 0) > 0 and acc.setdefault("tok_reported", 0) < 20:
+                # a position-carrying answer that cannot refer to the editor's text (judged on the FRESH server's answer
+                # for the text it was opened with: no history involved)
+                acc["tok_reported"] += 1
+                text = next((x["text"] for x in reversed(r[: r.index(e)]) if x["a"] == "Fresh"), None)
+                rep.violation("answer:semantic-tokens-not-in-utf16-units", {"tokens": True, "text_code_points": text, "script": scripts[ri] if ri < len(scripts) else None},
+                              f"semanticTokens/full for a text opened in one didOpen: {e['tokBad']} token(s) start beyond / overlap / end beyond their line when read in UTF-16 code units")
             if e["a"] == "Query":
+                acc["tok_bad"] = acc.get("tok_bad", 0) + (1 if e.get("tokBad", 0) > 0 else 0)
                 acc["per_kind"][e["kind"]] = acc["per_kind"].get(e["kind"], 0) + 1
             elif e["a"] in ("Open", "Change"):
                 acc["notifications"] += 1
